@@ -210,6 +210,7 @@ func init() {
 			// rejected as cycles (in the target scope or below it)
 			k.WCycleCloser, k.WShadowCycle = 2, 1
 			k.PFocus = 45
+			k.PEmptyGroup = 3
 			return k
 		},
 		clauses: []string{CVerdictProvide, CProvSingle, CFromNowhere, CVerdictInvoke, CGroupForeign, CGroupMultiset, CZeroAvailable},
